@@ -170,6 +170,11 @@ def check_property(prop, tier, seed, jobs=16):
     # ---- data lemmas / property-level lemmas (in process)
     from . import datalemmas
     dl = datalemmas.run(eng, prop, tier)
+    if prop == "C03":
+        from . import kernel
+        kl = kernel.run(prop, tier)
+        dl = {"obligations": dl["obligations"] + kl["obligations"], "assumptions": dl.get("assumptions", []) + kl["assumptions"],
+              "summary": {"data": dl.get("summary"), "kernel": kl["summary"]}}
     # ---- executable twins of the lemma library (assumptions are at least exercised on every run)
     lemma_twins = None
     if prop in ("C15", "C03"):
@@ -230,6 +235,10 @@ def check_property(prop, tier, seed, jobs=16):
                 samples.append({"id": d["id"], "solver": d["solver"], "result": "unsat", "time_s": d.get("time", 0)})
         elif d.get("finding"):
             known_hit.append((None, d))
+        elif d["result"] == "undecided":
+            # the lemma generator could not read the code (outside its subset): reported, never a verdict
+            n_obl -= 1
+            fallbacks.append({"function": d["id"], "contract": None, "reason": d.get("reason")})
         else:
             failed.append((None, d))
     # ---- replay counter-models of failed obligations on the real code
@@ -254,11 +263,11 @@ def check_property(prop, tier, seed, jobs=16):
         rid = hashlib.sha1(o["id"].encode()).hexdigest()[:10]
         safe = "".join(ch if ch.isalnum() or ch in "-_.#" else "_" for ch in o["id"].split("/", 1)[-1])[:110]
         path = os.path.join("replays", prop, f"{safe}.{rid}.json")
-        res = replays.get(o["id"])
+        res = replays.get(o["id"]) or o.get("native")
         doc = {"property": prop, "obligation": o["id"], "function": r["key"] if r else None, "contract": r.get("contract") if r else None,
                "file": r.get("file") if r else None, "lines": r.get("lines") if r else None, "line": o.get("line"), "note": o.get("note"),
                "solver": {"result": o["result"], "reason": o.get("reason"), "smt2": o.get("smt2")},
-               "kind": "model" if o.get("model") else "obligation-only", "input_model": o.get("model"), "native_replay": res}
+               "kind": "model" if (o.get("model") or o.get("witness")) else "obligation-only", "input_model": o.get("model") or o.get("witness"), "native_replay": res}
         if extra:
             doc.update(extra)
         with open(os.path.join(ROOT, path), "w") as fh:
